@@ -52,4 +52,8 @@ def matrix_jobs(prop, fam, tier, **kw):
         for i in S.matrix3_rows(tier):
             sym = ('d1',) if tier == 'quick' else ('d1', 'd2', 't1')
             out += mk(prop, f'm3/{i}', S.seq_program(i, sym), max_paths=3000, **kw)
+    elif fam == 'm4':
+        for i in S.matrix4_rows(tier):
+            sym = ('d1', 'b') if tier == 'quick' else ('d1', 'd2', 't1', 'b')
+            out += mk(prop, f'm4/{i}', S.seq_program(i, sym, ext=True), max_paths=3000, **kw)
     return out
